@@ -783,15 +783,53 @@ def fam_history(v, n, model):
             elif x < 0.5:
                 ops.append({"op": "world", "w": wid, "do": "update", "sid": s, "config": default, "data": _attr_data(rng) if rng.random() < 0.9 else []})
             elif x < 0.65:
-                ops.append({"op": "world", "w": wid, "do": "get_data", "sid": s, "config": default, "enc": rng.choice(["str", "uri", "none"])})
+                ops.append({"op": "world", "w": wid, "do": "get_data", "sid": s, "config": default, "enc": rng.choice(["str", "uri", "none"]), "reuse": rng.random() < 0.5})
             elif x < 0.75:
                 ops.append({"op": "world", "w": wid, "do": "sid_exists", "sid": s})
             elif x < 0.85:
                 ops.append({"op": "world", "w": wid, "do": rng.choice(["children", "siblings", "get_new", "get_last"]), "sid": s})
             else:
-                ops.append({"op": "world", "w": wid, "do": "find_all", "s": s.rsplit("/", 1)[0] + "/*" if "/" in s else s})
+                ops.append({"op": "world", "w": wid, "do": "find_all", "s": s.rsplit("/", 1)[0] + "/*" if "/" in s else s, "reuse": rng.random() < 0.5})
             if rng.random() < 0.1:
                 ops.append({"op": "world", "w": wid, "do": "dump"})
+        # the same READS before and after each write, through instances kept for the whole session: an answer
+        # remembered from before the write is a wrong answer after it
+        label, fields = rng.choice(leaves)
+        keys = [k for k, _ in fields]
+        vals0 = [val for _, val in fields]
+        from gen import re_words as _rw
+        for _rep in range(2):
+            vals = list(vals0)
+            for kk in ("version", "state"):      # a sibling that does not exist yet
+                if kk in keys and rng.random() < 0.7:
+                    i0 = keys.index(kk)
+                    alt = [w for w in _rw(dict(v.tdict[label])[kk], rng) if w not in ("*", ">") and w != vals[i0]]
+                    if alt:
+                        vals[i0] = rng.choice(alt)
+            target = "/".join(vals)
+            parent = "/".join(vals[:-1])
+            star_v = None
+            if "version" in keys:
+                vi = keys.index("version")
+                star_v = "/".join(vals[:vi] + [rng.choice(["*", ">"])] + vals[vi + 1:])
+            reads = [{"op": "world", "w": wid, "do": "sid_exists", "sid": target},
+                     {"op": "world", "w": wid, "do": "children", "sid": parent},
+                     {"op": "world", "w": wid, "do": "siblings", "sid": target},
+                     {"op": "world", "w": wid, "do": "get_last", "sid": target, "key": "version" if "version" in keys else None},
+                     {"op": "world", "w": wid, "do": "get_new", "sid": target},
+                     {"op": "world", "w": wid, "do": "find_all", "s": parent + "/*", "reuse": True},
+                     {"op": "world", "w": wid, "do": "find_paths", "s": parent + "/*", "config": default, "reuse": True},
+                     {"op": "world", "w": wid, "do": "get_data", "sid": target, "config": default, "enc": "str", "reuse": True},
+                     {"op": "world", "w": wid, "do": "get_data_all", "sid": target, "enc": "str", "reuse": True},
+                     {"op": "world", "w": wid, "do": "get_data_all", "sid": target, "enc": "str", "attributes": ["comment", "status"], "via": "sid_get_attr"},
+                     {"op": "world", "w": wid, "do": "getter_all", "s": parent + "/*", "enc": "str", "reuse": True}]
+            if star_v:
+                reads.append({"op": "world", "w": wid, "do": "get_next", "sid": star_v})
+            ops += [dict(r) for r in reads]
+            ops.append({"op": "world", "w": wid, "do": "create", "sid": target, "config": default, "data": [["comment", '"first"']]})
+            ops += [dict(r) for r in reads]
+            ops.append({"op": "world", "w": wid, "do": "update", "sid": target, "config": default, "data": [["comment", '"second"'], ["status", "1"]]})
+            ops += [dict(r) for r in reads]
         # a version workflow on one leaf: ask for the last, create a greater one, ask again
         label, fields = leaves[0]
         keys = [k for k, _ in fields]
